@@ -13,7 +13,8 @@ CHECKS = {
     text="Dataset.tla gives the contributing cases and values of every request as a pure function of the files; TLC enumerates "
          "every missing-value pattern of obs/fcst on small grids (2 inputs, 3 inputs, obs-less inputs, climatology) and checks "
          "SameCases / SameObs / NonInterference on each; every enumerated dataset is written to real files and every request of "
-         "the menu is replayed into verif.data.Data and compared cell by cell. Exhaustive in the thorough tier (2^16 patterns).",
+         "the menu is replayed into verif.data.Data and compared cell by cell (also: other fields with their own missing cells, NetCDF fill values, "
+         "files whose coverage differs along coordinates that are close but not equal). Exhaustive in the thorough tier (2^16 patterns).",
     technique="TLA+ spec (Dataset.tla) model-checked with TLC; TLC-generated datasets and expected results replayed into verif.data.Data",
     ref="6/C01"),
  "C02": dict(
@@ -54,7 +55,9 @@ CHECKS = {
          "per input in command-line order, -acc as running sums and the -x threshold table; TLC checks the shape lemmas on every "
          "(dataset, metric, axis) case; each is run through verif.driver.run with -type text and csv, with/without -f, -leg, -acc, and "
          "the printed table (warnings stripped) is parsed and compared to the format's precision (6 / 4 significant digits); "
-         "the table of the obs/fcst diagram with quantile lines (one column per series, named after its input) comes from Diagrams.tla.",
+         "the table of the obs/fcst diagram with quantile lines (one column per series, named after its input) comes from Diagrams.tla; "
+         "Report!ConditionalTable gives the -x obs / -x fcst tables (scores of the pairs whose observed / forecast value lies in each event of -b / -r, "
+         "rows labelled by the bin edge; rows of consecutive within= events share no pair).",
     technique="TLA+ spec (Report.tla over Scoring.tla) evaluated by TLC; expected tables compared with the parsed output of verif.driver.run -type text|csv",
     ref="6/C12"),
  "C13": dict(
@@ -71,7 +74,8 @@ CHECKS = {
     text="Dataset.tla Adj subtracts/divides the climatology forecast at the same coordinates (exact rationals; zero divisors give "
          "non-finite, hence dropped, cases); TLC enumerates climatologies with their own coverage, order, missing cells and zeros, "
          "checks the shift-equivalence theorem (-c X versus X as extra input) and emits expected results replayed into Data(clim=...); "
-         "through the driver: legend / table columns never name the climatology, and the operation applied is the one given with the file that is used.",
+         "through the driver: legend / table columns never name the climatology, and the operation applied is the one given with the file that is used; "
+         "-obsrange together with a climatology selects by observed value, not by anomaly (family C14Range).",
     technique="TLA+ spec (Dataset.tla Adj) model-checked with TLC; generated datasets replayed into verif.data.Data with clim",
     ref="6/C14"),
  "C07": dict(
@@ -136,7 +140,7 @@ CHECKS = {
     text="Diagrams.tla defines, per diagram, the series of points it must draw as functions of the common valid cases of Dataset.tla "
          "(standard line and bar plots, obsfcst, qq, scatter, against, sort, hist, freq, error, performance, and the probabilistic "
          "diagrams reliability, discrimination, roc, marginal, pithist; droc, droc0, change, autocov, autocorr, taylor, fss, murphy, "
-         "economicvalue, bsdecomp, igncontrib, invreliability, spreadskill, meteo; the map and impact views), one series per input in "
+         "economicvalue, bsdecomp, igncontrib, invreliability, spreadskill, meteo, obsfcst with quantile lines, time series with one line per ensemble member; the map and impact views), one series per input in "
          "command-line order, with the every-value-in-one-bin lemma for binned diagrams checked by TLC; every (dataset, diagram, option variant) is run through verif.driver.run with the Agg backend and "
          "the Line2D / bar / scatter artists of the figure are projected (label, x data, y data): each expected series must be drawn under the "
          "right label and in input order. The rank / maprank / mapimpact views are not transcribed (see the evidence of every run).",
@@ -156,7 +160,7 @@ CHECKS = {
     text="DataImpl.tla models Data.get_scores as the code has it (heap of mutable arrays, per-input field cache handed out without "
          "copying, request cache, observation sharing by aliasing, in-place propagation and -obsrange); TLC checks that it refines "
          "Dataset.tla (HistoryIndependent, EarlierUnaltered, CacheCoherent, CacheGrows) over every request sequence up to length 3 of a "
-         "36-request menu and, under a canonical view that forgets object ids, in EVERY cache state reachable by histories of any length "
+         "36-request menu (plus menus over other fields, ensemble members, and slices of several derived dimensions with the same slice number) and, under a canonical view that forgets object ids, in EVERY cache state reachable by histories of any length "
          "over a 12-request core menu (datasets x 2^12 states). Spec->code: maximal behaviours are replayed on one real Data object (results vs the history-free "
          "expectation, all earlier arrays vs their snapshots, Input arrays unchanged). Code->spec: hook traces of those executions are "
          "and of random request sequences are validated by TLC against the model (Trace_DataImpl), internal disagreement being MODEL-DRIFT only.",
